@@ -10,12 +10,13 @@ from c26 import WF
 FRAMES = ('DEFFRAME 0 "a":\n\tDIRECTION: "tx"\nDEFFRAME 1 "a":\n\tDIRECTION: "tx"\nDEFFRAME 0 1 "b":\n\tDIRECTION: "tx"\nDEFFRAME 1 2 "c":\n\tDIRECTION: "tx"\n'
           'DECLARE x BIT[4]\nDECLARE y BIT[4]')
 REG = ["x", "y"]
+REGZ = ["x", "y", "z"]          # z is not declared (the scheduler accepts undeclared regions); used by the MOVE templates
 Q = [0, 1]
 Q3 = [0, 1, 2]
 FN = ["a", "b"]
 CLASSICAL = [
-    Tpl("move-lit", "MOVE {d}[0] 1", d=("str", REG)),
-    Tpl("move-ref", "MOVE {d}[0] {s}[1]", d=("str", REG), s=("str", REG)),
+    Tpl("move-lit", "MOVE {d}[0] 1", d=("str", REGZ)),
+    Tpl("move-ref", "MOVE {d}[0] {s}[1]", d=("str", REGZ), s=("str", REGZ)),
     Tpl("add", "ADD {d}[0] {s}[0]", d=("str", REG), s=("str", REG)),
     Tpl("load", "LOAD {d}[0] {s} {i}[0]", d=("str", REG), s=("str", REG), i=("str", REG)),
     Tpl("measure", "MEASURE {q} {d}[0]", q=("int", Q), d=("str", REG)),
@@ -32,9 +33,14 @@ RF = [
     Tpl("fenceall", "FENCE"),
     Tpl("reset", "RESET {q}", q=("int", Q3)),
     Tpl("swapphases", 'SWAP-PHASES 0 "a" 1 "a"'),
+    Tpl("capture-self", 'CAPTURE {q} "{f}" flat(duration: 1.0, iq: {d}[1]) {d}[0]', q=("int", Q), f=("str", FN), d=("str", REG)),
+    Tpl("shiftphase2", 'SHIFT-PHASE 0 1 "{f}" 1.0', f=("str", FN)),
 ]
 TERMS = [Tpl("jumpwhen", "JUMP-WHEN @l {s}[0]", s=("str", REG)), Tpl("halt", "HALT")]
-ALPHABETS = {"C22": CLASSICAL + RF, "C23": CLASSICAL + [RF[3], RF[4], RF[0]], "C24": RF + [CLASSICAL[0]]}
+ALPHABETS = {"C22": CLASSICAL + RF, "C23": CLASSICAL + [RF[3], RF[4], RF[0], RF[11]], "C24": RF + [CLASSICAL[0]]}
+# one more instruction when every instruction is a pulse on one qubit, a pulse on both qubits or a frame update on both qubits:
+# "the later use depends on EVERY earlier blocker" needs two blockers and a user
+FOCUS3 = {"C24": ("pulse", "pulse2", "shiftphase2")}
 
 
 def node_ord(n, count):
@@ -151,9 +157,12 @@ class SchedCheck(Check):
 
     def path(self, m):
         td = m.td
-        n = m.choose([(k, None) for k in range(1, self.N[m.tier] + 1)])
-        names = [m.choose([(t.name, None) for t in self.tpls]) for _ in range(n)]
-        term = m.choose([(t, None) for t in ["none"] + [t.name for t in TERMS]])
+        N = self.N[m.tier]
+        focus = FOCUS3.get(self.prop)
+        n = m.choose([(k, None) for k in range(1, N + (2 if focus else 1))])
+        pool = [t.name for t in self.tpls] if n <= N else list(focus)
+        names = [m.choose([(x, None) for x in pool]) for _ in range(n)]
+        term = m.choose([(t, None) for t in ["none"] + [t.name for t in TERMS]]) if n <= N else "none"
         m.ctx = {"names": names, "term": term}
         prog = m.call_path("Program::new", [])
         cell = [prog]
